@@ -318,6 +318,43 @@ def run_case(case, ctx):
                         oracle.append("%s: id %s, its state point hashes to %s; md5 of the canonical text of %r = %s" % (
                             name, got3[0], got3[1], v, want))
                 tags.append("synced-spelling=%s" % stored)
+                # "in every session": a session that re-keyed a job it had opened by id must still hand out the OLD
+                # id with the old value once that job exists again (created by another session)
+                s1 = signac.Project(d3)
+                hnd = s1.open_job(id=other.id)
+                hnd.statepoint()
+                hnd.sp["zz_rekeyed"] = 1
+                signac.Project(d3).open_job(v).init()
+                for name, fn in (("statepoint()", lambda: s1.open_job(id=other.id).statepoint()),
+                                 ("cached_statepoint", lambda: dict(s1.open_job(id=other.id).cached_statepoint)),
+                                 ("iteration", lambda: {j_.id: j_.statepoint() for j_ in s1}[other.id])):
+                    try:
+                        got4 = calc_id(fn())
+                    except Exception as e:
+                        got4 = "EXC:" + exc_name(e)
+                    if got4 != want:
+                        oracle.append("after a job opened by id was re-keyed and its old id re-created by another session, "
+                                      "%s of the old id hashes to %s, the id is %s" % (name, got4, want))
+                # "the id is re-derived and compared on every state point load": a directory whose file hashes to
+                # another id (copied by hand) is never handed out as a job with that content - not even by a session
+                # that ran a search first
+                import shutil as _sh
+                wrong = ref_id({"zz_wrong_dir": 1})
+                _sh.copytree(os.path.join(p3.workspace, other.id), os.path.join(p3.workspace, wrong))
+                s2 = signac.Project(d3)
+                try:
+                    list(s2.find_jobs({"zz_no_such_key": 1}))
+                except Exception:
+                    pass
+                for name, fn in (("statepoint()", lambda: s2.open_job(id=wrong).statepoint()),
+                                 ("cached_statepoint", lambda: dict(s2.open_job(id=wrong).cached_statepoint))):
+                    try:
+                        got5 = calc_id(fn())
+                    except Exception:
+                        continue
+                    if got5 != wrong:
+                        oracle.append("a directory named %s holding the state point file of %s is handed out by open_job(id=...).%s "
+                                      "after a search in the same session" % (wrong[:8], got5[:8], name))
             finally:
                 ctx.cleanup(d3)
     for gv, gid in GOLDEN:
